@@ -27,7 +27,7 @@ PROPS = {
         assumptions=["names are byte strings shorter than 2^32 (the writer casts len to uint32)"],
     ),
     "C02": dict(
-        suites=[dict(name="engine", model="engine", spec="engine-spec", spec_on_impl=True, thorough_shards=16, arg="journal")],
+        suites=[dict(name="engine", model="engine", spec="engine-spec", spec_on_impl=True, shrink="prefix", thorough_shards=16, arg="journal")],
         predicate="capture exactness (Spec.apply prev newestFile = image SQLite sees), pre/post checksums, page constraints, position advances by at most one (Driver/EngineSpecD.lean over Spec/Image.lean)",
         explanation="C02_* theorems: capture exactness for every previous/new image and covering dirty set (Spec/Image.lean), plus frame properties of the engine model's CommitJournal/invalidateJournal. The byte-level engine model (Model/Engine.lean) is compared with the real DB on pager-simulator histories; the spec predicates are evaluated on the implementation's own LTX files against the simulator's reference image.",
         trusted=["hand-written engine model of db.go (tied by the engine correspondence suite)", "the pager simulator as a description of SQLite's rollback-journal protocol (harness/pager.go)",
@@ -35,21 +35,21 @@ PROPS = {
         assumptions=["SQLite writes every page it changed through the database file before finalising the journal and truncates only after finalisation (pager simulator)", "CRC64 page hash treated as collision-free when images are compared by per-page checksum"],
     ),
     "C03": dict(
-        suites=[dict(name="engine", model="engine", spec="engine-spec", spec_on_impl=True, thorough_shards=16, arg="wal")],
+        suites=[dict(name="engine", model="engine", spec="engine-spec", spec_on_impl=True, shrink="prefix", thorough_shards=16, arg="wal")],
         predicate="capture exactness for WAL commits (last frame per page, size from the commit frame), position advances iff a complete transaction was appended (Driver/EngineSpecD.lean)",
         explanation="C03_* theorems: capture exactness at spec level; engine model: WAL writes need the exclusive WRITE lock, no write below the capture offset, no transaction => no change. Correspondence and spec predicates as for C02, on WAL-heavy histories (repeated pages, split frame writes, rolled-back frames, restarts, SQLite and LiteFS checkpoints, shrink across checksum blocks).",
         trusted=["hand-written engine model of db.go (tied by the engine correspondence suite)", "the pager simulator as a description of SQLite's WAL protocol", "ltx encoder/decoder"],
         assumptions=["WAL frames of a transaction are appended contiguously from the capture offset under the WRITE lock (pager simulator)"],
     ),
     "C04": dict(
-        suites=[dict(name="engine", model="engine", spec="engine-spec", spec_on_impl=True, thorough_shards=16, arg="mixed")],
+        suites=[dict(name="engine", model="engine", spec="engine-spec", spec_on_impl=True, shrink="prefix", thorough_shards=16, arg="mixed")],
         predicate="position checksum = Spec.checksum(reference image) = from-scratch checksum over the raw database+WAL files (Driver/EngineSpecD.lean; harness raw scan)",
         explanation="C04_* theorems about the checksum-cache model (Model/Checksum.lean: set/get, block invalidation, empty database). At every quiescent point of every history the implementation's reported checksum is compared with (a) the Lean spec checksum of the pager simulator's reference image and (b) a from-scratch scan of the raw files.",
         trusted=["hand-written model of the checksum cache (Model/Checksum.lean) tied by the engine suite", "hash/crc64 (Go) and the Lean CRC64 agree (checked on every page of every run)"],
         assumptions=["databases containing the lock page (>= 1 GiB) are not exercised by the byte-level suite; the lock page is handled in the model and theorems only"],
     ),
     "C09": dict(
-        suites=[dict(name="engine", model="engine", spec="engine-spec", spec_on_impl=True, thorough_shards=16, arg="mixed")],
+        suites=[dict(name="engine", model="engine", spec="engine-spec", spec_on_impl=True, shrink="prefix", thorough_shards=16, arg="mixed")],
         predicate="Spec.chainOK on the decoded listing, newest file = position, ltx.Decoder.Verify on every file, temporary files ignored, retention keeps the newest (Driver/EngineSpecD.lean)",
         explanation="C09_* theorems: chain preserved by append/snapshot/retention at spec level; engine model: WriteLTXFileAt accepts only an exact extension (else unchanged), a snapshot replaces the log, Drop appends one tombstone. The listing of the real log directory is decoded and checked after every step, including retention sweeps with stray temporary files.",
         trusted=["hand-written engine model (engine suite)", "ltx.Decoder.Verify as the file-integrity oracle", "file modification times are set by the harness (os.Chtimes) to simulate age"],
